@@ -1,5 +1,5 @@
 (* RingProofs.v — proofs about Ring.v (C09). *)
-From Coq Require Import List ZArith QArith Qcanon Qround Bool Arith Lia ZifyBool.
+From Coq Require Import List ZArith QArith Qcanon Qround Bool Arith Lia ZifyBool Lqa.
 From PV Require Import Ring.
 Import ListNotations.
 
@@ -53,6 +53,51 @@ Proof. intros. now apply ring_delay. Qed.
 
 Lemma nth_map_lt {A B} (f : A -> B) d d' : forall l i, (i < length l)%nat -> nth i (map f l) d = f (nth i l d').
 Proof. induction l as [|x l IH]; intros i H; cbn in *; [lia|]. destruct i; [reflexivity|]. apply IH. lia. Qed.
+
+Lemma nth_repeat_lt {A} (x d : A) n j : (j < n)%nat -> nth j (repeat x n) d = x.
+Proof. revert j; induction n; intros j H; [lia|]. destruct j; cbn; [reflexivity|]. apply IHn. lia. Qed.
+
+(* ---- the (Ns, d+1) matrix buffer of _add_matrix_delay: row j is the scalar machine fed with component j ---- *)
+Lemma mfeed_length X Ns d : (forall c, length (X c) = Ns) -> forall c, length (mfeed X c (mbuf0 Ns d)) = Ns.
+Proof.
+  intros HX. induction c; cbn [mfeed]; [apply repeat_length|].
+  unfold mcall. rewrite map_length, combine_length, IHc, HX. apply Nat.min_id.
+Qed.
+
+Lemma combine_nth_lt {A B} (a : list A) (b : list B) k da db : (k < length a)%nat -> (k < length b)%nat ->
+  nth k (combine a b) (da, db) = (nth k a da, nth k b db).
+Proof.
+  revert b k; induction a as [|x a IH]; intros b k Ha Hb; [cbn in Ha; lia|].
+  destruct b as [|y b]; [cbn in Hb; lia|]. destruct k; cbn; [reflexivity|]. apply IH; cbn in *; lia.
+Qed.
+
+Lemma mfeed_row X Ns d : (forall c, length (X c) = Ns) -> forall c j, (j < Ns)%nat ->
+  nth j (mfeed X c (mbuf0 Ns d)) [] = feed (fun c => nth j (X c) 0%Qc) c (repeat 0%Qc (S d)).
+Proof.
+  intros HX. induction c as [|c IH]; intros j Hj; cbn [mfeed feed].
+  - unfold mbuf0. apply nth_repeat_lt. exact Hj.
+  - unfold mcall. set (f := fun p : list Qc * Qc => call (fst p) (snd p)).
+    rewrite (nth_indep _ [] (f ([], 0%Qc))) by (rewrite map_length, combine_length, (mfeed_length X Ns d HX), HX, Nat.min_id; exact Hj).
+    rewrite map_nth. rewrite combine_nth_lt by (rewrite ?(mfeed_length X Ns d HX), ?HX; exact Hj).
+    unfold f. cbn [fst snd]. rewrite IH by exact Hj. reflexivity.
+Qed.
+
+(* delivered_i(c) = sum_j W[i][j] * src_j(c - d), zero before the first call: any Ns, any d, any weight matrix *)
+Theorem matrix_delay W X Ns d c : (forall c, length (X c) = Ns) ->
+  mat_delivered W X Ns d c =
+  matvec W (map (fun j => if (d <=? c)%nat then nth j (X (c - d)%nat) 0%Qc else 0%Qc) (seq 0 Ns)).
+Proof.
+  intros HX. unfold mat_delivered. f_equal.
+  apply nth_ext with (d := 0%Qc) (d' := 0%Qc).
+  - rewrite !map_length, seq_length. apply (mfeed_length X Ns d HX).
+  - intros j Hj. rewrite map_length, (mfeed_length X Ns d HX) in Hj.
+    rewrite (nth_map_lt (read d) 0%Qc []) by (rewrite (mfeed_length X Ns d HX); exact Hj).
+    rewrite (nth_map_lt _ 0%Qc 0%nat) by (rewrite seq_length; exact Hj). rewrite seq_nth by exact Hj. cbn [plus].
+    rewrite (mfeed_row X Ns d HX) by exact Hj.
+    rewrite (ring_delay (fun c => nth j (X c) 0%Qc) d d c (Nat.le_refl d)). reflexivity.
+Qed.
+
+
 
 (* ------------------------------------------------------------------------------------------------ *)
 (* 2. bookkeeping of the flattened slot lists *)
@@ -226,9 +271,9 @@ Proof.
   - (* buffered: slot of e in the buffered vector = row of its source at its own delay *)
     unfold buffered. rewrite index_of_nth by (apply gslots_In, group_self, He).
     rewrite roll_rows_nth by (rewrite ?(inv_len_rows _ _ _ I), ?(inv_len_xs _ _ _ I); exact Hs).
-    assert (Hd : is_delayed e = true) by (destruct (is_delayed e); [reflexivity|discriminate]).
     assert (Hr : rsteps (cdt c) e = sdelay (cdt c) e).
-    { unfold rsteps, sdelay, is_delayed in *. destruct (ed e); try discriminate. reflexivity. }
+    { rewrite orb_false_r in Hsib. unfold sdelay, is_delayed in *.
+      destruct (ed e) eqn:Ed; cbn [orb] in Hsib; [apply Nat.eqb_eq, Hsib | apply Nat.eqb_eq, Hsib | unfold rsteps; rewrite Ed; reflexivity]. }
     rewrite <- Hr. unfold call.
     destruct (rsteps (cdt c) e) as [|j] eqn:Ej.
     + cbn [nth]. apply Hhd.
@@ -379,6 +424,26 @@ Proof.
   assert (H : (Qred (inject_Z z) - inject_Z z ?= 1 # 2)%Q = Lt).
   { apply Qlt_alt. rewrite Qred_correct. setoid_replace (inject_Z z - inject_Z z)%Q with 0%Q by ring. reflexivity. }
   rewrite H. reflexivity.
+Qed.
+
+(* np.round for every rational: the result is a nearest integer (|q - z| <= 1/2), and on a tie (q = floor q + 1/2) it is the
+   even one of the two candidates *)
+Theorem round_half_even_nearest (q : Qc) :
+  let z := round_half_even q in
+  (inject_Z z - (1 # 2) <= this q)%Q /\ (this q <= inject_Z z + (1 # 2))%Q /\
+  ((this q - inject_Z (qfloor q) == 1 # 2)%Q -> Z.even z = true).
+Proof.
+  unfold round_half_even, qfloor. set (f := Qfloor (this q)).
+  pose proof (Qfloor_le (this q)) as Hlo. pose proof (Qlt_floor (this q)) as Hhi. fold f in Hlo, Hhi.
+  assert (Hf1 : (inject_Z (f + 1) == inject_Z f + 1)%Q) by (rewrite inject_Z_plus; reflexivity).
+  rewrite Hf1 in Hhi.
+  destruct (Qcompare_spec (this q - inject_Z f) (1 # 2)) as [He|Hl|Hg].
+  - destruct (Z.even f) eqn:Ev.
+    + repeat split; try lra; try (intros _; exact Ev).
+    + rewrite Hf1. repeat split; try lra; try (intros _;
+      replace (f + 1)%Z with (Z.succ f) by lia; rewrite Z.even_succ, <- Z.negb_even, Ev; reflexivity).
+  - repeat split; try lra; try (intros E; lra).
+  - rewrite Hf1. repeat split; try lra; try (intros E; lra).
 Qed.
 
 (* ------------------------------------------------------------------------------------------------ *)
